@@ -11,7 +11,7 @@ Core-only imports.
 import AsmjitVerif.Model.Frame
 namespace AsmjitVerif.Frame
 
-structure Slot where
+structure RASlot where
   size : Nat
   /-- `_alignment` = `uint8_t(max(alignment, 1))` -/
   align : Nat
@@ -21,11 +21,11 @@ structure Slot where
   offset : Nat := 0
   deriving Repr, Inhabited
 
-def Slot.isRegHome (s : Slot) : Bool := s.flags.testBit 0
-def Slot.isStackArg (s : Slot) : Bool := s.flags.testBit 1
+def RASlot.isRegHome (s : RASlot) : Bool := s.flags.testBit 0
+def RASlot.isStackArg (s : RASlot) : Bool := s.flags.testBit 1
 
 /-- `RAStackAllocator::new_slot`: the slot and the allocator's new `_alignment` -/
-def newSlot (allocAlign size alignment flags : Nat) : Slot × Nat :=
+def newSlot (allocAlign size alignment flags : Nat) : RASlot × Nat :=
   ({ size := u32 size, align := u8 (max (u32 alignment) 1), flags := u16 flags, useCount := 0 }, max allocAlign (u32 alignment))
 
 /-- `Support::ctz` of a non-zero 32-bit word (`__builtin_ctz`; undefined for 0, here 32) -/
@@ -35,7 +35,7 @@ def ctzGo : Nat → Nat → Nat
 def ctz (x : Nat) : Nat := ctzGo 32 x
 
 /-- step 1 of `calculate_stack_frame` -/
-def Slot.calcWeight (s : Slot) : Nat :=
+def RASlot.calcWeight (s : RASlot) : Nat :=
   let power := min (ctz s.align) 6
   if s.isRegHome then min (16 + s.useCount * (7 - power)) 0xFFFFFFFF else power
 
@@ -74,7 +74,7 @@ structure PS where
   gaps : Gaps
 
 /-- body of the step-3 loop for one slot -/
-def placeOne (ps : PS) (s : Slot) : PS × Slot :=
+def placeOne (ps : PS) (s : RASlot) : PS × RASlot :=
   if s.isStackArg then (ps, s) else
   let offset := ps.offset
   let aligned := alignUp offset s.align
@@ -91,7 +91,7 @@ def placeOne (ps : PS) (s : Slot) : PS × Slot :=
     let gaps' := if gapSize ≠ 0 then regGaps 64 ps.gaps gapOffset (u32 (gapSize + gapOffset)) else ps.gaps
     ({ offset := u32 (offset + s.size), gaps := gaps' }, { s with offset := offset })
 
-def placeAll : PS → List Slot → PS × List Slot
+def placeAll : PS → List RASlot → PS × List RASlot
   | ps, [] => (ps, [])
   | ps, s :: rest =>
     let (ps1, s1) := placeOne ps s
@@ -99,13 +99,13 @@ def placeAll : PS → List Slot → PS × List Slot
     (ps2, s1 :: rest1)
 
 /-- steps 1 and 3 of `calculate_stack_frame` on the slots in sorted order: the placed slots and `_stack_size` -/
-def calculate (allocAlign : Nat) (sorted : List Slot) : List Slot × Nat :=
+def calculate (allocAlign : Nat) (sorted : List RASlot) : List RASlot × Nat :=
   let ws := sorted.map fun s => { s with weight := s.calcWeight }
   let (ps, out) := placeAll { offset := 0, gaps := noGaps } ws
   (out, alignUp ps.offset allocAlign)
 
 /-- `adjust_slot_offsets` -/
-def adjustSlots (out : List Slot) (delta : Nat) : List Slot :=
+def adjustSlots (out : List RASlot) (delta : Nat) : List RASlot :=
   out.map fun s => if s.isStackArg then s else { s with offset := u32 (s.offset + delta) }
 
 /-- the frame side of `BaseRAPass::update_stack_frame`: clobbered registers become dirty, the allocator's alignment and
